@@ -170,3 +170,28 @@ package keeper
 //@   loop L4 invariant [C01.maporder.forcepush] forall i int :: 0 <= i && i <= MaxUint64 && has(Shard, i) ==> Shard[i] == entry(Shard[i])
 //@   loop L4 invariant [C01.maporder.forcepush] forall i int :: visited(i) ==> indom(shardSet, i)
 //@   loop L4 ensures [C01.maporder.forcepush] forall i int :: 0 <= i && i <= MaxUint64 ==> (has(Shard, i) <==> (entry(has(Shard, i)) && !indom(shardSet, i)))
+
+// NewMeta registers a new data model with its alias and schedules its deletion at the end of the paid term
+//@ func (Keeper) NewMeta(ctx, order, metadata) (err)
+//@   requires forall h int :: 0 <= h && h <= MaxUint64 && has(ExpiredData, h) ==> ExpiredData[h].Height == h
+//@   modifies Metadata[metadata.DataId], Model[sprintf("%s-%s-%s", metadata.Owner, metadata.Alias, metadata.GroupId)], ExpiredData[u64(order.CreatedAt + order.Duration)]
+//@   ensures [C09.newmeta.fresh] err == nil ==> !old(has(Metadata, metadata.DataId)) && has(Metadata, metadata.DataId) && Metadata[metadata.DataId] == metadata
+//@   ensures [C13.newmeta.alias] err == nil ==> !old(has(Model, sprintf("%s-%s-%s", metadata.Owner, metadata.Alias, metadata.GroupId)))
+//@       && has(Model, sprintf("%s-%s-%s", metadata.Owner, metadata.Alias, metadata.GroupId)) && Model[sprintf("%s-%s-%s", metadata.Owner, metadata.Alias, metadata.GroupId)].Data == metadata.DataId
+//@   ensures [C11.newmeta.sched] err == nil ==> has(ExpiredData, u64(order.CreatedAt + order.Duration)) && contains(ExpiredData[u64(order.CreatedAt + order.Duration)].Data, metadata.DataId)
+//@   ensures [C09.newmeta.err] err != nil ==> Metadata[metadata.DataId] == old(Metadata[metadata.DataId]) && (has(Metadata, metadata.DataId) <==> old(has(Metadata, metadata.DataId)))
+
+// UpdateMetaStatusAndCommit marks an update of an existing model as in flight
+//@ func (Keeper) UpdateMetaStatusAndCommit(ctx, order) (err)
+//@   requires forall h int :: 0 <= h && h <= MaxUint64 && has(ExpiredData, h) ==> ExpiredData[h].Height == h
+//@   requires has(Metadata, order.DataId) ==> Metadata[order.DataId].DataId == order.DataId && Metadata[order.DataId].CreatedAt + Metadata[order.DataId].Duration <= MaxUint64
+//@   requires [C11.sched.once] has(Metadata, order.DataId) && has(ExpiredData, u64(Metadata[order.DataId].CreatedAt + Metadata[order.DataId].Duration)) ==>
+//@       forall i int, j int :: 0 <= i && i < j && j < len(ExpiredData[u64(Metadata[order.DataId].CreatedAt + Metadata[order.DataId].Duration)].Data)
+//@         ==> !(ExpiredData[u64(Metadata[order.DataId].CreatedAt + Metadata[order.DataId].Duration)].Data[i] == order.DataId && ExpiredData[u64(Metadata[order.DataId].CreatedAt + Metadata[order.DataId].Duration)].Data[j] == order.DataId)
+//@   modifies Metadata[order.DataId], ExpiredData
+//@   ensures [C16.inflight.one] err == nil ==> old(has(Metadata, order.DataId)) && old(Metadata[order.DataId].Status) == MetaComplete
+//@   ensures [C09.inflight.fields] err == nil && order.Operation <= 3 ==> has(Metadata, order.DataId) && Metadata[order.DataId].Status == order.Operation && Metadata[order.DataId].Commit == order.Commit
+//@       && Metadata[order.DataId].OrderId == order.Id && Metadata[order.DataId].Owner == old(Metadata[order.DataId].Owner) && Metadata[order.DataId].Commits == old(Metadata[order.DataId].Commits)
+//@       && Metadata[order.DataId].Orders == old(Metadata[order.DataId].Orders) && Metadata[order.DataId].ReadonlyDids == old(Metadata[order.DataId].ReadonlyDids)
+//@       && Metadata[order.DataId].ReadwriteDids == old(Metadata[order.DataId].ReadwriteDids) && Metadata[order.DataId].DataId == order.DataId
+//@   ensures [C09.inflight.err] err != nil ==> Metadata[order.DataId] == old(Metadata[order.DataId]) && (has(Metadata, order.DataId) <==> old(has(Metadata, order.DataId)))
